@@ -60,7 +60,7 @@ func planOracle(offset int64, limit int, plan []downloader.VerifCDNRange) string
 const window = 128 * kib
 
 type attack struct {
-	Kind string `json:"kind"` // none corrupt truncate-boundary truncate-mid truncate-empty extend reorder hash-lie
+	Kind string `json:"kind"` // none corrupt truncate-boundary truncate-mid truncate-empty extend extend-over reorder hash-lie
 	At   int    `json:"at"`   // index of the data response (in arrival order) that is attacked; -1 = every response at/after Off
 	Off  int64  `json:"off"`  // offset selector for some attacks
 	Once bool   `json:"once"` // only the first matching response
@@ -158,7 +158,7 @@ func (w *world) tamper(off int64, limit int, b []byte) []byte {
 			return b
 		}
 		out = nil
-	case "extend": // more bytes than the file has / than was asked for
+	case "extend": // more bytes than the file has, up to what was asked for
 		extra := 1 + w.rng.Intn(8*kib)
 		if len(out)+extra > limit {
 			extra = limit - len(out)
@@ -167,6 +167,12 @@ func (w *world) tamper(off int64, limit int, b []byte) []byte {
 			return b
 		}
 		out = append(out, w.rng.Bytes(extra)...)
+	case "extend-over": // genuine answer followed by extra bytes, MORE than was asked for
+		extra := 1 + w.rng.Intn(64)
+		if w.rng.Bool() {
+			extra = 16 * (1 + w.rng.Intn(4*kib/16))
+		}
+		out = append(out, w.rng.Bytes(limit-len(out)+extra)...)
 	case "reorder": // the bytes of another part of the file
 		other := (off + int64(limit)) % (w.c.Size + 1)
 		other -= other % 16
@@ -457,6 +463,10 @@ func main() {
 				sig = "cdn-truncated-at-window-boundary-accepted"
 			case fc.Mode == "cdn-inline" && fc.Attack.Kind == "extend":
 				sig = "cdn-extended-tail-in-split-window-accepted"
+			case fc.Mode == "cdn-inline" && fc.Attack.Kind == "extend-over":
+				sig = "cdn-overlong-response-accepted"
+			case fc.Mode != "cdn-inline" && strings.HasPrefix(fc.Attack.Kind, "extend"):
+				sig = "verifier-accepts-non-genuine-chunk"
 			case fc.Mode == "cdn-inline" && fc.Attack.Kind == "truncate-mid":
 				sig = "cdn-truncated-in-split-window-accepted"
 			}
@@ -649,6 +659,12 @@ func main() {
 	var rp struct {
 		Plan []int64 `json:"plan"`
 		File *fcase  `json:"file"`
+		Vq   *struct {
+			Offset     int64  `json:"offset"`
+			Limit      int    `json:"limit"`
+			GenuineLen int    `json:"genuine_len"`
+			Data       []byte `json:"data"`
+		} `json:"vq"`
 	}
 	if c.LoadReplay(&rp) {
 		switch {
@@ -656,6 +672,14 @@ func main() {
 			o := runFile(*rp.File)
 			fmt.Printf("replay %+v\n  observed %+v\n", *rp.File, o)
 			fileCase("replay", *rp.File)
+		case rp.Vq != nil:
+			gen := xfer.Bytes(rp.Vq.Offset, rp.Vq.GenuineLen)
+			h := sha256.Sum256(gen)
+			got := downloader.VerifNewVerifier().Verify(tg.FileHash{Offset: rp.Vq.Offset, Limit: rp.Vq.Limit, Hash: h[:]}, rp.Vq.Data)
+			fmt.Printf("replay verifier.verify(limit %d, %d bytes; genuine window %d bytes) = %v, data genuine = %v\n", rp.Vq.Limit, len(rp.Vq.Data), rp.Vq.GenuineLen, got, string(rp.Vq.Data) == string(gen))
+			if got != (string(rp.Vq.Data) == string(gen)) {
+				c.Violate("verifier-accepts-non-genuine-chunk", "verifier.verify accepts a chunk that is not the genuine window (or rejects the genuine one)", -1, 0, nil)
+			}
 		case len(rp.Plan) == 2:
 			plan, err := downloader.VerifBuildCDNRequestPlan(rp.Plan[0], int(rp.Plan[1]))
 			fmt.Printf("replay plan(%d,%d) = %v, %v\n", rp.Plan[0], rp.Plan[1], plan, err)
@@ -748,6 +772,50 @@ func main() {
 		verifyCase(vc)
 	}
 
+	// F: verifier.verify (WithVerify(true)): genuine window, and corrupted / truncated / extended /
+	// over-long (more than hash.Limit) / reordered variants of it
+	for i := 0; i < c.N(120, 4000); i++ {
+		c.Obs.Evaluations++
+		limit := 4 * (1 + c.Rng.Intn(10))
+		n := limit
+		if c.Rng.Chance(1, 4) {
+			n = 1 + c.Rng.Intn(limit) // the short last window
+		}
+		off := int64(c.Rng.Intn(1 << 20))
+		gen := xfer.Bytes(off, n)
+		h := sha256.Sum256(gen)
+		data, kind := gen, "genuine"
+		switch c.Rng.Intn(6) {
+		case 0:
+			kind = "corrupt"
+			data = append([]byte(nil), gen...)
+			data[c.Rng.Intn(n)] ^= 0x20
+		case 1:
+			kind = "truncate"
+			data = gen[:c.Rng.Intn(n)]
+		case 2:
+			kind = "extend"
+			data = append(append([]byte(nil), gen...), c.Rng.Bytes(1+c.Rng.Intn(limit))...)
+		case 3:
+			kind = "extend-over-limit"
+			data = append(append([]byte(nil), gen...), c.Rng.Bytes(limit-n+1+c.Rng.Intn(20))...)
+		case 4:
+			kind = "reorder"
+			data = xfer.Bytes(off+int64(limit), n)
+		}
+		c.Count("verifier-verify:" + kind)
+		got := downloader.VerifNewVerifier().Verify(tg.FileHash{Offset: off, Limit: limit, Hash: h[:]}, data)
+		sh, ix := c.Case(fmt.Sprintf("CVq %s %d %s %s", hx.Bytes(h[:]), limit, hx.Bytes(data), hx.B(got)),
+			map[string]interface{}{"vq": true, "kind": kind, "limit": limit, "len": len(data), "accepted": got})
+		if kind != "genuine" {
+			c.Nontrivial(fmt.Sprintf("vq %s %d %d", kind, limit, len(data)))
+		}
+		if got != (string(data) == string(gen)) {
+			c.Violate("verifier-accepts-non-genuine-chunk", fmt.Sprintf("verifier.verify(limit %d) = %v for a %s chunk of %d bytes (genuine window: %d bytes)", limit, got, kind, len(data), n), sh, ix,
+				map[string]interface{}{"vq": map[string]interface{}{"offset": off, "limit": limit, "genuine_len": n, "data": data}})
+		}
+	}
+
 	// E: verifier queue
 	for i := 0; i < c.N(200, 5000); i++ {
 		queueCase(c.Rng.Range(0, 12), c.Rng.Range(0, 4), c.Rng.Range(1, 5), c.Rng.Intn(2), c.Rng.Chance(1, 3))
@@ -756,7 +824,7 @@ func main() {
 	// D: whole files. Sizes: 4 windows + tail, exact multiple of the window, less than one window.
 	sizes := []int64{4*window + 1000, 4 * window, 3*window + window/2, 70 * kib}
 	parts := []int{128 * kib, 256 * kib, 512 * kib, 192 * kib, 96 * kib, 320 * kib} // aligned and not aligned with the 128 KiB windows
-	attacks := []string{"none", "corrupt", "truncate-boundary", "truncate-mid", "truncate-empty", "extend", "reorder", "hash-lie"}
+	attacks := []string{"none", "corrupt", "truncate-boundary", "truncate-mid", "truncate-empty", "extend", "extend-over", "reorder", "hash-lie"}
 	for _, mode := range []string{"cdn-inline", "cdn-verify", "master-verify"} {
 		for _, sz := range sizes {
 			for pi, p := range parts {
@@ -781,9 +849,28 @@ func main() {
 			}
 		}
 	}
+	// every single data response of a small download attacked in turn, for every attack and mode
+	// (the matrix above picks the attacked response at random)
+	for _, mode := range []string{"cdn-inline", "cdn-verify", "master-verify"} {
+		for _, ak := range attacks[1:] {
+			if ak == "hash-lie" {
+				continue
+			}
+			for _, p := range []int{128 * kib, 192 * kib} {
+				sz := int64(2*window + 1000)
+				for at := 0; at < int(sz/int64(min(p, window)))+3; at++ {
+					fileCase("each-response", fcase{Mode: mode, Stream: at%2 == 0, Size: sz, P: p, Threads: 1 + at%2, Seed: c.Rng.U64(),
+						Attack: attack{Kind: ak, At: at, Once: true}})
+				}
+			}
+		}
+	}
 	// corpus: the orchestrator's baseline witness (part 256 KiB, 4 windows + 1000 bytes, first response cut at 128 KiB)
 	fileCase("corpus", fcase{Mode: "cdn-inline", Stream: true, Size: 4*window + 1000, P: 256 * kib, Threads: 1, Seed: 1,
 		Attack: attack{Kind: "truncate-boundary", At: 0, Once: true}})
+	// corpus: CDN answer longer than the request limit (fixed finding)
+	fileCase("corpus", fcase{Mode: "cdn-inline", Stream: true, Size: 4 * window, P: 320 * kib, Threads: 3, Seed: 1,
+		Attack: attack{Kind: "extend-over", At: 1}})
 	// corpus: response truncated inside a hash window that starts before the chunk (fixed finding)
 	fileCase("corpus", fcase{Mode: "cdn-inline", Stream: true, Size: 4*window + 1000, P: 192 * kib, Threads: 1, Seed: 5,
 		Attack: attack{Kind: "truncate-mid", At: 3, Once: true}})
@@ -796,6 +883,6 @@ func main() {
 		keys = append(keys, k)
 	}
 	sort.Strings(keys)
-	c.Obs.Rule = "plans: every (offset, limit) on the 4 KiB grid up to 3 MiB against the oracle (a structured sample and random far offsets also against the Coq model), invalid inputs; CTR: random keys/IVs/offsets incl. the 2^32-block wrap against the per-block counter keystream (a sample also against the Coq AES model); verifyChunk: tiny hash windows with genuine / corrupted / truncated / extended chunks, corrupted windows and lying hashes; verifier queue: random consecutive window lists, seed prefixes, batch sizes, shuffled batches, both end-of-list server behaviours; whole downloads (cdn inline, cdn + verifier, master + verifier) x sizes x aligned and unaligned part sizes x attacks {corrupt, truncate at / off a window boundary / to nothing, extend, reorder, lying hash} with token refresh and reupload events; non-trivial = distinct multi-step plan, tampered verify case, or download in which the attack was applied"
+	c.Obs.Rule = "plans: every (offset, limit) on the 4 KiB grid up to 3 MiB against the oracle (a structured sample and random far offsets also against the Coq model), invalid inputs; CTR: random keys/IVs/offsets incl. the 2^32-block wrap against the per-block counter keystream (a sample also against the Coq AES model); verifyChunk: tiny hash windows with genuine / corrupted / truncated / extended chunks, corrupted windows and lying hashes; verifier.verify: genuine / corrupted / truncated / extended (also beyond hash.Limit) / reordered chunks; verifier queue: random consecutive window lists, seed prefixes, batch sizes, shuffled batches, both end-of-list server behaviours; whole downloads (cdn inline, cdn + verifier, master + verifier) x sizes x aligned and unaligned part sizes x attacks {corrupt, truncate at / off a window boundary / to nothing, extend within and beyond the requested limit, reorder, lying hash}, every single response of a small download attacked in turn, with token refresh and reupload events; non-trivial = distinct multi-step plan, tampered verify case, or download in which the attack was applied"
 	c.Finish()
 }
